@@ -217,8 +217,15 @@ class Ctx(object):
             # frame condition: an object that existed before the call is being stored into
             self.frame_conds.append((Z.FALSE, 'store into an object that existed before the call (line %s)'
                                      % getattr(node, 'lineno', '?')))
-        for (mark, allowed) in self.loop_guard:
+        for g in self.loop_guard:
+            mark, allowed = g[0], g[1]
             if ref.rid < mark and ref.rid not in allowed:
+                if len(g) > 2:
+                    # the loop contract's frame is a proof obligation: the body stores into an object
+                    # that lives across iterations and is not in `modifies`
+                    self.oblige(g[2], Z.FALSE, 'K', node,
+                                note='loop frame: the body stores into an object that outlives the iteration and is not '
+                                     'listed in the loop contract\'s modifies (line %s)' % getattr(node, 'lineno', '?'))
                 raise Unsupported('loop body mutates an object not listed in the loop '
                                   'contract\'s modifies (rid %d)' % ref.rid, node)
         return self.heap[ref.rid]
